@@ -10,12 +10,13 @@
 package main
 
 import (
-	"io"
-	"log"
 	"encoding/hex"
 	"encoding/json"
 	"fmt"
+	"io"
+	"log"
 	"os"
+	"runtime/pprof"
 	"sort"
 	"strings"
 	"sync"
@@ -63,17 +64,17 @@ func stat(key string) *opStat {
 
 // replayCase is a self-contained failing case.
 type replayCase struct {
-	Arch  string            `json:"arch"`
-	Asm   string            `json:"asm"`
-	Bytes string            `json:"bytes"`
-	S     map[string]uint32 `json:"sgpr,omitempty"` // overrides of the background
+	Arch  string              `json:"arch"`
+	Asm   string              `json:"asm"`
+	Bytes string              `json:"bytes"`
+	S     map[string]uint32   `json:"sgpr,omitempty"` // overrides of the background
 	V     map[string][]uint32 `json:"vgpr,omitempty"`
-	SCC   uint8             `json:"scc"`
-	VCC   uint64            `json:"vcc"`
-	EXEC  uint64            `json:"exec"`
-	M0    uint32            `json:"m0"`
-	PC    uint64            `json:"pc"`
-	Mem   bool              `json:"mem,omitempty"`
+	SCC   uint8               `json:"scc"`
+	VCC   uint64              `json:"vcc"`
+	EXEC  uint64              `json:"exec"`
+	M0    uint32              `json:"m0"`
+	PC    uint64              `json:"pc"`
+	Mem   bool                `json:"mem,omitempty"`
 }
 
 func background(withMem bool) *isaspec.State {
@@ -143,7 +144,12 @@ var run *harness.Run
 
 func main() {
 	run = harness.Start("C03", "exploration")
-	log.SetOutput(io.Discard) // the ALUs report through log.Panicf; the panic value is what is classified
+	log.SetOutput(io.Discard)                   // the ALUs report through log.Panicf; the panic value is what is classified
+	if pf := os.Getenv("C03_PPROF"); pf != "" { // development aid
+		f, _ := os.Create(pf)
+		pprof.StartCPUProfile(f)
+		defer pprof.StopCPUProfile()
+	}
 	archs := []*archRun{}
 	for _, a := range []isaspec.Arch{isaspec.GCN3, isaspec.CDNA3} {
 		forms, err := isaspec.Forms(a)
@@ -186,10 +192,30 @@ func main() {
 		it.ar.pool.Put(w)
 		atomic.AddInt64(&done, 1)
 	})
+	pprof.StopCPUProfile()
 	finish(archs, complete)
 }
 
+var (
+	findMu   sync.Mutex
+	findings = map[string]string{}
+)
+
+// recordFinding keeps the first message of every signature (development aid:
+// C03_DUMP_FINDINGS=<file> writes them out for the notes).
+func recordFinding(sig, msg string) {
+	findMu.Lock()
+	if _, ok := findings[sig]; !ok {
+		findings[sig] = msg
+	}
+	findMu.Unlock()
+}
+
 func finish(archs []*archRun, complete bool) {
+	if pf := os.Getenv("C03_DUMP_FINDINGS"); pf != "" {
+		data, _ := json.MarshalIndent(findings, "", " ")
+		os.WriteFile(pf, data, 0o644)
+	}
 	// coverage tables
 	type row struct {
 		Key string `json:"opcode"`
